@@ -146,12 +146,12 @@ def forbidden_tokens(modules=None):
     return hits
 
 
-def audit(prop, theorems):
+def audit(prop, theorems, extra_modules=()):
     """`#print axioms` for every listed theorem. Returns {theorem: sorted axiom list | None if missing/erroneous}."""
     d = os.path.join(LEAN, '.audit')
     os.makedirs(d, exist_ok=True)
     path = os.path.join(d, prop + '.lean')
-    mods = sorted({'PromVerif.Props.' + prop})
+    mods = sorted({'PromVerif.Props.' + prop} | set(extra_modules))
     with open(path, 'w') as f:
         for m in mods:
             f.write('import %s\n' % m)
@@ -341,7 +341,7 @@ class Ctx:
                 self.build_log += out[-6000:]
                 self.theorems = {t: None for t in theorems}
             else:
-                res, aout = audit(self.prop, theorems)
+                res, aout = audit(self.prop, theorems, extra_targets)
                 self.theorems = res
                 for t, ax in res.items():
                     if ax is None:
@@ -350,7 +350,7 @@ class Ctx:
                         self.broken.append('theorem %s depends on axioms %s' % (t, ax))
                     else:
                         self.discharged += 1
-            hits = forbidden_tokens(import_closure(['PromVerif.Props.' + self.prop, 'PromVerif.Drv.' + self.prop]))
+            hits = forbidden_tokens(import_closure(['PromVerif.Props.' + self.prop, 'PromVerif.Drv.' + self.prop] + list(extra_targets)))
             if hits:
                 self.broken.append('forbidden tokens in Lean sources: %s' % hits[:5])
                 self.discharged = 0
